@@ -769,9 +769,10 @@ func (e *Executor) Pending(ctx context.Context) ([]File, error) {
 		}); first != -1 && first < idx && e.order != ExecOrderLinearSkip {
 			var skipped []File
 			for _, f := range migrations[first:idx] {
-				if _, found := slices.BinarySearchFunc(revs, f, func(r *Revision, f File) int {
+				// A file is also out of order if a previous (non-linear) run stopped in the middle of it.
+				if i, found := slices.BinarySearchFunc(revs, f, func(r *Revision, f File) int {
 					return strings.Compare(r.Version, f.Version())
-				}); !found {
+				}); !found || partiallyApplied(revs[i]) {
 					skipped = append(skipped, f)
 				}
 			}
